@@ -16,7 +16,7 @@ CONTROLS = ['CONTROL-constant0', 'CONTROL-gaussian', 'CONTROL-uniform', 'CONTROL
 BASE = {'lab': 'label', 'M': 'm', 'A': 'fa', 'B': 'fb', 'C': 'fc'}
 
 
-def rname(t):
+def rname(t, BASE=BASE):
     if len(t) == 1:
         return BASE[t[0]]
     if t[0] == 'MULTIEX':
@@ -26,7 +26,7 @@ def rname(t):
     if t[0] == 'SUB2':
         return f'SUBFEATURE|{BASE[t[1]]}|{BASE[t[2]]}-{t[3]}&{t[4]}'
     if t[0] == 'AND':
-        return rname(t[1]) + ' AND ' + rname(t[2])
+        return rname(t[1], BASE) + ' AND ' + rname(t[2], BASE)
     if t[0] == 'TR':
         return BASE[t[1]] + t[2]
     if t[0] == 'CONTROL':
@@ -83,18 +83,21 @@ def run_config(V, rng, tier, run_label, MV, AV, BV, CV, MAPS, flagsets):
         raise E.MachineryError('no cases emitted')
     items = []
     for flags, f0, f, submap, focus, raw in cases:
-        cols0 = [rname(c[0]) for c in raw]
+        # the label column is whatever --label_column names (with noise controls the target control must follow it)
+        labname = rng.choice(['label', 'label', 'target', 'clicked']) if 'noise' in flags else 'label'
+        B = dict(BASE, lab=labname)
+        cols0 = [rname(c[0], B) for c in raw]
         # label position varies; the spec's frame lists it first
         order = cols0[1:]
-        order.insert(rng.randrange(len(order) + 1), 'label')
-        data = {rname(c[0]): [CELL.get(v, v) for v in c[1]] for c in raw}
+        order.insert(rng.randrange(len(order) + 1), labname)
+        data = {rname(c[0], B): [CELL.get(v, v) for v in c[1]] for c in raw}
         nrows = len(raw[0][1])
         rows = [[data[c][r] for c in order] for r in range(nrows)]
         mapping = ';'.join(BASE[a] + ('->' if op == 'one' else '<->') + BASE[b] for op, a, b in submap)
         items.append({'columns': order, 'rows': rows,
-                      'kept': [rname(c[0]) for c in f0],
+                      'kept': [rname(c[0], B) for c in f0], '_base': B,
                       'numeric': ['fc'] if 'transform' in flags and 'C' in focus else [],
-                      'args': {'heuristic': 'MI-numba-randomized', 'label_column': 'label',
+                      'args': {'heuristic': 'MI-numba-randomized', 'label_column': labname,
                                'feature_set_focus': (None if focus == {'M', 'A', 'B', 'C'} else ','.join(sorted(BASE[x] for x in focus))),
                                'transformers': 'minimal' if 'transform' in flags and 'C' in focus else 'none',
                                'explode_multivalue_features': 'm' if 'multi' in flags else 'False',
@@ -127,9 +130,9 @@ def run_config(V, rng, tier, run_label, MV, AV, BV, CV, MAPS, flagsets):
             tr_names = set()
             for name_t, vals in f[len(f0):]:
                 if has_tr(name_t):
-                    tr_names.add(rname(name_t))       # transformer columns (and interactions over them): any subset may be kept, values are Transformers.tla's business
+                    tr_names.add(rname(name_t, item['_base']))       # transformer columns (and interactions over them): any subset may be kept, values are Transformers.tla's business
                     continue
-                expected[rname(name_t)] = (name_t[0], vals)
+                expected[rname(name_t, item['_base'])] = (name_t[0], vals)
             newcols = {c_: ob['values'][c_] for c_ in ob['columns'][n0:]}
 
             def satisfies(kind, vals, real):
